@@ -86,13 +86,26 @@ def run(chk, only=None):
                (0, "struct s { int b : 3 __attribute__((packed)); };"), (2, "__builtin_va_arg(ap, int)"), (0, "void f(void) { x <: 1 :> = 2; <% %> }"),
                (0, "__inline__ __volatile__ int __attribute__((unused)) v;"), (2, "a ? b : c ? d : e = f"), (3, "for (int i = 0; i < 3; ++i) { continue; }")]
     inputs += adjacency_family()
+    # GNU forms (parsed with the GNU switches on): the extension keyword in front of every kind of expression and declaration, alternate keywords, and generated GNU units
+    gnu_texts = set()
+    gl = [(2, "__extension__ f ( 1 )"), (2, "__extension__ ( int ) { 1 }"), (2, "__extension__ ( { 1 ; } )"), (2, "__extension__ __real__ z"), (2, "__extension__ __builtin_offsetof ( struct s , a )"),
+          (2, "__extension__ __builtin_va_arg ( ap , int )"), (2, "__extension__ __builtin_choose_expr ( 1 , a , b )"), (2, "__extension__ ( k + 1 )"), (2, "__extension__ x ++"), (2, "__extension__ a [ 1 ]"),
+          (2, "__extension__ sizeof ( int )"), (2, "__extension__ - x"), (2, "__extension__ \"s\""), (2, "__extension__ 1"), (2, "__extension__ a . b"), (2, "__extension__ ( int ) x"),
+          (0, "__extension__ int k = 2 ;"), (0, "__extension__ typedef long long ll_t ;"), (0, "struct s { __extension__ int b ; __extension__ union { int c ; } ; } ;"),
+          (3, "__extension__ int j = 1 ;"), (0, "void f ( void ) { __asm__ __volatile__ ( \"nop\" ) ; }"), (0, "__inline int g ( void ) { return 1 ; } __typeof ( g ) h ;"),
+          (0, "int ( x ) = 1 ;"), (0, "int ( * z ) = 0 , ( ( y ) ) = 2 ;")]
+    for _i in range(60 if quick else 1500):
+        gl.append((0, cgen.G(_random.Random(rng.getrandbits(40)), gnu=True).unit()))
+    for c_, t_ in gl:
+        inputs.append((c_, t_)); gnu_texts.add(t_)
     modes = [2] if quick else [2, 3]
     if only:
         inputs, modes = only, [2, 3]
+        gnu_texts = {t_ for _c, t_ in only if "__" in t_}
     reqs, meta = [], []
     for c, t in inputs:
         for dm in modes:
-            reqs.append("unparse %d 2:1:0:0:%d %s" % (c, dm, t.encode("utf-8", "replace").hex() if t else "-")); meta.append((c, t, dm))
+            reqs.append("unparse %d 2:1:%s:0:%d %s" % (c, "20003f" if t in gnu_texts else "0", dm, t.encode("utf-8", "replace").hex() if t else "-")); meta.append((c, t, dm))
     impl = pv.run_impl(reqs, shards=pv.NCPU)
     parsed = [parse_unparse(a) if not a.startswith("CRASH") else "crash" for a in impl]
     # second round: lex source and unparsed text; reparse unparsed text
@@ -101,9 +114,10 @@ def run(chk, only=None):
         if p in (None, "crash") or p["diags"] or not p["full"]:
             continue
         idx.append(i)
-        lexreq.append("lex 2:1:0 " + (m[1].encode("utf-8", "replace").hex() or "-"))
-        lexreq.append("lex 2:1:0 " + (p["U"].hex() or "-"))
-        rereq.append("unparse %d 2:1:0:0:%d %s" % (m[0], m[2], p["U"].hex() or "-"))
+        ext_ = "20003f" if m[1] in gnu_texts else "0"
+        lexreq.append("lex 2:1:%s " % ext_ + (m[1].encode("utf-8", "replace").hex() or "-"))
+        lexreq.append("lex 2:1:%s " % ext_ + (p["U"].hex() or "-"))
+        rereq.append("unparse %d 2:1:%s:0:%d %s" % (m[0], ext_, m[2], p["U"].hex() or "-"))
     lexans = pv.run_impl(lexreq, shards=pv.NCPU)
     reans = pv.run_impl(rereq, shards=pv.NCPU)
     bad, n_clean, kinds_seen, crashes = [], 0, set(), 0
@@ -139,13 +153,20 @@ def run(chk, only=None):
     chk.coverage["distribution"] = {"inputs": len(inputs), "clean_parses": n_clean, "node_kinds_seen": len(kinds_seen), "front_end_crashes_skipped": crashes}
     seen = set()
     bad.sort(key=lambda b: len(b[0][1]))
+    import re as _re
+    PAREN_DECL_INIT = _re.compile(r"\(\s*\**\s*\(*\s*\**\s*[A-Za-z_]\w*\s*\)*\s*\)\s*(\[[^\]]*\]\s*)*=[^=]")
+    ALT_KW = _re.compile(r"__(asm|asm__|volatile__|volatile|inline|inline__|typeof|const|const__|restrict|restrict__|signed__|signed|alignof|alignof__|attribute|complex__|complex|real|imag|thread)\b")
     for m, why, det in bad:
+        if why in ("tokens-emitted", "spelling", "reparse-shape") and PAREN_DECL_INIT.search(m[1]):
+            why = "initializer-attached-inside-parenthesised-declarator"
+        elif why == "spelling" and ALT_KW.search(str(det.get("source"))):
+            why = "spelling:alternate-keyword"
         key = why if why.startswith("tokens-missing:") else why + ":" + (str(det.get("missing") or det.get("duplicated") or "")[:20] if why == "tokens-emitted" else str(det.get("source"))[:40] if why == "spelling" else "")
         fam = why if why != "spelling" else "spelling:" + str(det.get("source"))[:40]
         if fam in seen:
             continue
         seen.add(fam)
-        chk.report(fam if why == "spelling" else why if why.startswith("tokens-missing:") else why + ":" + m[1][:40],
+        chk.report(fam if why == "spelling" else why if why.startswith(("tokens-missing:", "initializer-attached", "spelling:alternate")) else why + ":" + m[1][:40],
                    {"request": "unparse %d 2:1:0:0:%d %s" % (m[0], m[2], m[1].encode("utf-8", "replace").hex()), "category": m[0], "text": m[1], "why": why, "detail": det,
                     "count_failing_same_kind": sum(1 for b in bad if b[1] == why)}, found=True, what="unparse(parse(text)) is not the token sequence of text")
         if len(seen) > 10:
